@@ -63,14 +63,28 @@ def classify_assumptions(txt):
     if "Closed under the global context" in txt:
         return True, [], []
     prims, axioms = [], []
+    # entries look like `name : type` (possibly continued on indented lines)
+    entries = []
     for line in txt.splitlines():
-        m = re.match(r'^([A-Za-z0-9_\.\']+)\s*:', line)
-        if m:
-            name = m.group(1)
-            if name.startswith(("PrimFloat.", "Uint63.", "PrimInt63.", "Float64", "Sint63.")) or name in ("float", "int"):
-                prims.append(name)
-            else:
-                axioms.append(name)
+        if line.strip() in ("Axioms:", ""):
+            continue
+        if re.match(r'^\S', line):
+            entries.append(line)
+        elif entries:
+            entries[-1] += " " + line.strip()
+    PRIM_TYPES = {"int", "float", "bool", "Set", "comparison", "float_comparison", "float_class", "carry", "prod", "*", "->", "(", ")"}
+    for e in entries:
+        m = re.match(r'^([A-Za-z0-9_\.\']+)\s*:\s*(.*)$', e)
+        if not m:
+            axioms.append(e)
+            continue
+        name, typ = m.group(1), m.group(2)
+        toks = set(re.findall(r"[A-Za-z_][A-Za-z0-9_\.']*|->|\*|\(|\)", typ))
+        toks = set(t.split(".")[-1] for t in toks)
+        if name.startswith(("PrimInt63.", "PrimFloat.")) or (toks <= PRIM_TYPES and ("int" in toks or "float" in toks)):
+            prims.append(name)       # Coq's primitive machine integers / binary64 floats (kernel primitives, not axioms of this development)
+        else:
+            axioms.append(name)
     return False, prims, axioms
 
 
